@@ -18,6 +18,54 @@ def big_alloc_probe(ctx):
                       True, "tensor of 2^30 elements: rc=%d %s" % (rc, out[-200:]))
 
 
+def io_under_asan(ctx):
+    """save / load (also of ill-formed files) under AddressSanitizer+UBSan: the files are written by the
+    real save() of the sanitizer build and read back by its load(); a sanitizer report or crash is the
+    violation (the functional side of these cases belongs to C13/C14)."""
+    try:
+        from engines import io_common as io, c13, c14
+    except ImportError as e:
+        ctx.cov.setdefault("parts_not_available", []).append("io under asan (%s)" % e)
+        return
+    impl_a, _model = io.drivers(ctx, "asan")
+    env = io.impl_env("asan", damage=True)
+    objs = c13.object_cases(ctx)
+    if ctx.quick():
+        objs = objs[:120] + [o for o in objs[120:] if o[0] != "p"][:60] + objs[-24:]
+    save_lines = [io.line("save", k, ws, d) for (k, ws, d) in objs]
+    info = {"save_cases": len(save_lines)}
+
+    def report(stage, rc, outs, lines):
+        nxt = lines[min(len(outs), len(lines) - 1)][:4000]
+        san = [o for o in outs if "Sanitizer" in o or "runtime error" in o]
+        ctx.violation("io-asan-" + stage, {"kind": "sanitizer", "stage": stage, "rc": rc, "case": nxt, "driver": impl_a,
+                                           "sanitizer_lines": san[:5], "witness": "io-asan :: " + stage + " :: " + nxt[:200],
+                                           "replay_hint": "echo '<case>' | ASAN_OPTIONS=%s %s" % (env.get("ASAN_OPTIONS", ""), impl_a)},
+                      True, "io_drv (asan build) stopped with rc=%d at %s case `%s`" % (rc, stage, nxt[:300]))
+
+    rc, hexes = io.run_impl(impl_a, save_lines, env)
+    if rc != 0 or len(hexes) != len(save_lines):
+        report("save", rc, hexes, save_lines)
+        ctx.cov["io_under_asan"] = info
+        return
+    load_lines = []
+    for (k, ws, d), a in zip(objs, hexes):
+        if a.startswith(("err", "other", "badcase")):
+            continue
+        load_lines.append(io.line("load", k, ws, io.fresh_like(k, d), a))
+        if k in "pm":
+            load_lines.append(io.line("load", k, not ws, io.other_like(ctx.rng, k, d), a))
+    ill = [l for l in c14.illformed_cases(ctx)] + [l for l in c14.accepted_variants(ctx)]
+    ill = [l[0] if isinstance(l, tuple) else l for l in ill]
+    info.update({"load_cases": len(load_lines), "illformed_or_variant_files": len(ill)})
+    for stage, lines in (("load", load_lines), ("illformed", ill)):
+        rc, outs = io.run_impl(impl_a, lines, env, timeout=1500)
+        if rc != 0 or len(outs) != len(lines):
+            report(stage, rc, outs, lines)
+            break
+    ctx.cov["io_under_asan"] = info
+
+
 def run(ctx):
     ctx.level = "proof"
     res = ctx.prove()
@@ -35,6 +83,7 @@ def run(ctx):
     c10mod.run_fault(ctx, "plain", 14 if ctx.quick() else 70)
     c10mod.run_fault(ctx, "asan", 7 if ctx.quick() else 70)
     tc.optional_part(ctx, "frontend", "run_part", 3000 if ctx.quick() else 40000)
+    io_under_asan(ctx)
     for part in (("progcheck", "run_mode", ("grad", 300 if ctx.quick() else 5000), {"variant": "asan"}),):
         try:
             r = tc.optional_part(ctx, part[0], part[1], *part[2], **part[3])
